@@ -26,9 +26,11 @@ func c14Run(cs c14Case) (fs []F) {
 	root := dyn.Alloc(t, al(cs.C, cs.P, cs.P))
 	st := newStore(cs.C * cs.P)
 	for i := range st.cells {
-		st.cells[i] = int64(i + 1)
+		st.cells[i] = tk(int64(i + 1))
 	}
-	fill(root, 1)
+	for i, x := range st.cells {
+		root.SetSample(i, dyn.Tok(t, x))
+	}
 	parent := root
 	if !cs.Whole {
 		parent = root.Slice(cs.S, cs.S+cs.L)
@@ -53,7 +55,7 @@ func c14Run(cs c14Case) (fs []F) {
 	if g, w := ch.Capacity(), parent.Capacity(); g != w || g != cs.P-cs.S {
 		fail("shape", "Capacity() = %d, parent %d, model %d", g, w, cs.P-cs.S)
 	}
-	tok := int64(len(st.cells) + 1)
+	tok := tk(int64(len(st.cells) + 1))
 	for i := 0; i < wantLen; i++ {
 		pos := cs.C*i + cs.Chan // the model's interleaved position inside the parent
 		if pos >= plen {
@@ -80,7 +82,7 @@ func c14Run(cs c14Case) (fs []F) {
 		if p, _ := dyn.Try(func() { got = ch.Sample(i) }); !p && got.Tok() != tok {
 			fail("readback", "SetSample(%d,%d) then Sample(%d) reads %d", i, tok, i, got.Tok())
 		}
-		tok++
+		tok = tk(tok + 1)
 	}
 	return
 }
@@ -109,6 +111,13 @@ func init() {
 					for L := 0; L <= 3; L++ {
 						for ch := 0; ch < C; ch++ {
 							cases = append(cases, c14Case{Type: tn(t), C: C, P: L, L: L, Whole: true, Chan: ch})
+						}
+					}
+					// long parents (tokens stay below 120: storage of at most 100 cells)
+					if L := 96 / C; C <= 4 {
+						for ch := 0; ch < C; ch++ {
+							cases = append(cases, c14Case{Type: tn(t), C: C, P: L, L: L, Whole: true, Chan: ch})
+							cases = append(cases, c14Case{Type: tn(t), C: C, P: L, S: 1, L: L - 2, Chan: ch})
 						}
 					}
 				}
